@@ -31,14 +31,27 @@ def classify_binary(got, rates, counts):
     return "mismatch"
 
 
-def check_arrays(ctx, name, rates2d, counts2d):
+def check_arrays(ctx, name, rates2d, counts2d, dtype="float"):
     from csep.core import binomial_evaluations as Bn, brier_evaluations as Br
+    # dtype of the arrays handed over: float64, or integer arrays (whole expected counts)
     r = numpy.array(rates2d, dtype=float)
     c = numpy.array(counts2d, dtype=float)
+    if dtype == "int":
+        r = r.astype(numpy.int64)
+        c = c.astype(numpy.int64)
+        ctx.count("integer_dtype_arrays")
+    r_f = numpy.array(rates2d, dtype=float)
+    c_f = numpy.array(counts2d, dtype=float)
+    return _check_arrays(ctx, name, r, c, r_f, c_f)
+
+
+def _check_arrays(ctx, name, r_in, c_in, r, c):
+    from csep.core import binomial_evaluations as Bn, brier_evaluations as Br
     flat_r, flat_c = r.ravel().tolist(), c.ravel().tolist()
     want, tol = G.binary_ll(flat_r, flat_c)
-    for variant, cc in (("", c), (":counts->1", (c > 0) * 1.0), (":counts->7", (c > 0) * 7.0)):
-        o = call(Bn.binary_joint_log_likelihood_ndarray, r, cc)
+    same_type = (lambda a: a.astype(numpy.asarray(c_in).dtype) if isinstance(c_in, numpy.ndarray) else a.tolist())
+    for variant, cc in (("", c_in), (":counts->1", same_type((c > 0) * 1.0)), (":counts->7", same_type((c > 0) * 7.0))):
+        o = call(Bn.binary_joint_log_likelihood_ndarray, r_in, cc)
         if not o.ok:
             ctx.unexpected(o, "binary_joint_log_likelihood_ndarray")
             continue
@@ -46,7 +59,7 @@ def check_arrays(ctx, name, rates2d, counts2d):
         if not G.close(got, want, tol):
             ctx.violation("%sbinary_ll:%s%s" % (name, classify_binary(got, flat_r, flat_c), variant if classify_binary(got, flat_r, flat_c) == "mismatch" else ""),
                           {"got": got, "want": want, "rates": flat_r[:8], "counts": flat_c[:8], "shape": list(r.shape)})
-        o = call(Br._brier_score_ndarray, r, cc)
+        o = call(Br._brier_score_ndarray, r_in, cc)
         wb = G.brier(flat_r, flat_c)
         if not o.ok:
             ctx.unexpected(o, "_brier_score_ndarray")
@@ -62,7 +75,7 @@ def check_case(ctx, case):
         c = numpy.array(case["counts"], dtype=float).reshape(shape)
         if any(w > 0 and lam <= 0 for lam, w in zip(case["rates"], case["counts"])):
             ctx.count("class:event_in_zero_rate_bin")
-        return check_arrays(ctx, "", r, c)
+        return check_arrays(ctx, "", r, c, case.get("dtype", "float"))
     S = G.Setup(case)
     region = S.region()
     fore = S.forecast(region)
@@ -154,7 +167,12 @@ def cases(draw):
             n = int(numpy.prod(shape))
             rates = draw(G.rate_arrays(n, lo=-9, hi=-6))
             counts = [draw(st.sampled_from([1, 1, 2, 0])) for _ in range(n)]
-        return {"k": "arrays", "shape": shape, "rates": rates, "counts": counts}
+        dt = draw(st.sampled_from(["float", "float", "float", "int"]))      # the docstrings say "Numpy Array": lists are not in the domain
+        if dt == "int":
+            rates = [float(draw(st.integers(0, 6))) for _ in range(n)]      # whole expected counts in an integer array
+            if not any(rates):
+                rates[0] = 1.0
+        return {"k": "arrays", "shape": shape, "rates": rates, "counts": counts, **({"dtype": dt} if dt != "float" else {})}
     c = draw(G.setups(max_cells=12, max_mags=4, max_events=40, lo=-9, hi=1))
     c["k"] = "tests"
     c["nsim"] = draw(st.integers(1, 3))
